@@ -579,7 +579,13 @@ func (s *gsim) checkStreams() {
 		o.mu.Lock()
 		got := append([]string(nil), o.got...)
 		o.mu.Unlock()
-		s.c.Logf("observer #%d `%s` s0=%d %s required=%v got=%v", o.idx, o.src, o.s0, gCauseOrLive(o), o.required, got)
+		if o.deadCause == "client-disconnected" {
+			// how much of a round in progress reached this stream before its client went away depends on the order
+			// in which the engine visits its observers (a Go map): judged below, but not part of the event log
+			s.c.Logf("observer #%d `%s` s0=%d %s", o.idx, o.src, o.s0, gCauseOrLive(o))
+		} else {
+			s.c.Logf("observer #%d `%s` s0=%d %s required=%v got=%v", o.idx, o.src, o.s0, gCauseOrLive(o), o.required, got)
+		}
 		if o.unknown {
 			continue
 		}
